@@ -198,8 +198,8 @@ def binary_part(chk, rng):
             hist = rng.choice(hists)
 
             def one():
-                rc, raw, line = c14.binary_run(exe, None, None, hist, 'flow', fmt='bin')
-                m = model_run(GEN, [line])[0].split(' ')
+                rc, raw, line, mm = c14.binary_run(exe, None, None, hist, 'flow', fmt='bin')
+                m = mm.split(' ')
                 exp = [bytes.fromhex(m[i + 1][1:]) for i, x in enumerate(m[:-1]) if x == 'b']
                 got = pb_frames(raw)
                 ok = rc == 0 and got is not None and len(got) == len(exp)
